@@ -25,7 +25,7 @@ func vGenCut(server bool) (wire []byte, spans []vFrameSpan) {
 		spans = append(spans, vFrameSpan{start: len(wire), hdrEnd: len(wire) + len(b) - n, end: len(wire) + len(b), first: first, last: last, control: control, interm: interm})
 		wire = append(wire, b...)
 	}
-	n := 1 + vChoose("plen", 2)
+	n := vChoose("plen", 3) // 0..2 payload bytes per frame (empty frames and fragments included)
 	switch vChoose("shape", 4) {
 	case 0: // single-frame message
 		add(true, byte(1+vChoose("op", 2)), n, true, true, false, false)
